@@ -140,6 +140,25 @@ claim("C01",
       "observation. A theorem cannot exhibit stack exhaustion, allocator aborts or timing: termination and panic-freedom of the compilers as a whole are NOT proved.",
       "Lean 4 proof (partial: scanner arithmetic, recovery-loop progress) + isolated-worker totality and scaling runs")
 
+claim("C14",
+      "PARTIAL proof. Lean 4 theorems decode_escBody / decode_escQuote (for EVERY string, the text written by escape_html_body / escape_html_quote is decoded by the entity "
+      "scanner back to the same string, whatever other references the tables know) and escBody_safe / escQuote_safe (the escaped text cannot open a tag or close its attribute); "
+      "models of both escapers and of parse_next_entity tied by differential runs. Oracle: print(parse(t)) is a fixpoint after one round, gets no new diagnostic above Note, and its "
+      "generated code renders and updates exactly like the original under the real runtime — over generated templates, mutated ones, every operator pair x operand position of "
+      "the expression grammar as a binding, hand-written delicate shapes, and with scope-name mangling.",
+      "Trusted: Lean kernel; axioms ⊆ {propext, Classical.choice, Quot.sound}; differential ties; WHATWG entity table from python; node runner. The expression printer "
+      "(parenthesisation by level), mixture splitting, the {{ protection and scope mangling are covered by the oracle only.",
+      "Lean 4 proof (escape/decode round trip for all strings) + round-trip behaviour oracle under the real runtime")
+claim("C15",
+      "PARTIAL proof. Lean 4 obligations re-checked against tables extracted each run: levels_as_documented (ParseErrorKind::level equals the documented table), "
+      "structural_defects_reach_documented_level, prevent_success_iff, and the position discipline (position_shapes, try_parse_restores + skipBytes_eq_advance / advance_spec / "
+      "prefix_position_inside: every bookkeeping path computes the position of a source prefix, so recorded positions lie inside the source). Oracle: generated well-formed "
+      "templates produce nothing at Warn or above; nine classes of single structural defects injected into them are each flagged by an expected kind at the documented level; "
+      "every diagnostic of every input (clean, injected, mutated, raw) has start <= end on an existing line at a UTF-16 column on a character boundary.",
+      "Trusted: Lean kernel; axioms ⊆ {propext, Classical.choice, Quot.sound}; extractor; the documented table in GE/Thm/C15.lean; the textual defect injectors. That each "
+      "recovery point reports, with a location spanning the offending text, is established by the injections only.",
+      "Lean 4 proof (level table obligations + position bookkeeping theorems) + clean/injected/fuzzed diagnostics oracle")
+
 claim("C02",
       "PARTIAL proof. Lean 4 theorems: every allocated identifier is an IdentifierName, never a reserved word / relied-upon global, never a preserved A–Z name, and distinct "
       "counters give distinct names (tables VAR_NAME_* and the reserved list re-extracted from the source each run); every string literal decodes (C12); every value "
